@@ -26,6 +26,6 @@ DELIVER in {out}/:
 - patch.diff — `git diff` of your change (source only; it must apply to a clean checkout with `git apply`);
 - a demonstration: a Go test file (e.g. demo_test.go, with a first-line comment saying in which package directory it must be placed and the -run pattern) or a small program, which FAILS with your change and PASSES without it (deterministically, or at least reliably within a few seconds);
 - meta.json — {{"property":"{pid}","summary":"what the change does","needs":"what specific interleaving/fault/sequence/input is needed for it to manifest","demo":{{"file":"demo_test.go","pkg_dir":"<dir relative to repo root>","run":"<TestName>"}},"test_pkgs":["./pkg/...", "..."],"tests_run":"commands you ran and their results, with and without the patch"}}.
-Verify everything yourself: with patch → build ok, existing tests of test_pkgs pass, demo fails; without patch (save `git diff > ../patch.tmp`, then `git apply -R ../patch.tmp`, test, then `git apply ../patch.tmp` again — NEVER use `git stash`, the stash is shared with other checkouts of this repository) → demo passes. Leave the worktree with the patch applied and the demo removed. Final message: a 5-line summary.""")
+Verify everything yourself: with patch → build ok, existing tests of test_pkgs pass, demo fails; without patch (save `git diff > {out}/patch.tmp`, then `git apply -R {out}/patch.tmp`, test, then `git apply {out}/patch.tmp` again — NEVER use `git stash`, the stash is shared with other checkouts of this repository) → demo passes. Leave the worktree with the patch applied and the demo removed. Final message: a 5-line summary.""")
 open(os.path.join(out, "PROMPT.txt"), "w").write(text)
 print(os.path.join(out, "PROMPT.txt"))
